@@ -6,7 +6,9 @@ import vlib
 
 
 def signature(msg, case_lines):
-    """key of a failing input for known_findings.json: primitive + the specific shape of the failure"""
+    """key of a failing input for known_findings.json: primitive + the specific shape of the failure.
+    The four specific shapes below are the defects found and fixed in /repo (ff2206d, 7605865, 5569e92, b9353d8); they would be
+    reported under the same signatures if they came back."""
     m = re.search(r"prim=(\w+)", msg)
     prim = m.group(1) if m else "?"
     if prim == "bpt" and "impl=err" in msg:
@@ -50,8 +52,7 @@ vlib.standard_check({
     "level_text": "Structural Lean models of the scl generators (same loops, chunking, widths, guards) proved equal to their arithmetic definitions for all "
                   "widths/values/parameters; models tied to the real circuits by simulating them on generated widths and inputs and diffing against model and definition.",
     "assumptions": ["pipelined longDivision (stepsPerPipelineReg > 0, registers placed by retiming) is covered by correspondence on input streams only: "
-                    "latency formula + value, no register-level model; priorityEncoderTree(registerStep=true) has a register-level model and a theorem "
-                    "for balanced chunkings",
+                    "latency formula + value, no register-level model; priorityEncoderTree(registerStep=true) has a register-level model and a full theorem",
                     "add()'s carry vector and CrcState/crcDef agreement are covered by correspondence + definition check only (no theorem)",
                     "GCD and primitives not named in the property are out of scope",
                     "inputs are fully defined (no 'x' propagation claims)"],
